@@ -1,5 +1,6 @@
-(* C11 (compile part): a structural fragment of parse trees on which the visitor does not
-   panic.  [nopanic_frag] only looks at the tree (it does not run the visitor); it excludes,
+(* C11 (compile part): a structural fragment of parse trees on which the UNREPAIRED visitor did not
+   panic (the repaired visitor returns a result on every tree: visit_never_panics; the fragment and its
+   helper functions are kept because the C12 theorems name declarations with them).  [nopanic_frag] only looks at the tree (it does not run the visitor); it excludes,
    conservatively, the five panic sites of Model/Visitor.v:
 
    site_attr      a padding attribute on anything but a fixed string
